@@ -13,8 +13,8 @@ from core.common import f2b, b2f, close
 from core import impl as I
 
 ID = "C06"
-LEAN_MODULES = ["AcnProofs.C06", "AcnProofs.Lemmas.FeasConvex", "AcnProofs.Lemmas.FeasFindings",
-                "AcnProofs.Lemmas.CodeTieNet"]
+LEAN_MODULES = ["AcnProofs.C06", "AcnProofs.Lemmas.FeasConvex", "AcnProofs.Lemmas.FeasFindings"]
+TIE_MODULES = ["AcnProofs.Lemmas.CodeTieNet"]
 DRIVER = "drv_C06"
 REQUIRED_THEOREMS = [
     "Acn.C06.net_feasible_iff", "Acn.C06.net_infeasible_of_neg_bound", "Acn.C06.net_feasible_iff_fin", "Acn.C06.net_feasible_iff_phasor", "Acn.C06.constraint_current_select",
